@@ -704,6 +704,26 @@ def scan_class(cnode, file, info, errors, module_funcs=None):
                 names = [x.arg for x in a.args][1:]
                 defaults = [None] * (len(names) - len(a.defaults)) + [ast.unparse(d) for d in a.defaults]
                 cinfo['init_params'] = list(zip(names, defaults))
+                # a constructor hands its arguments on as it received them: a parameter that is re-bound (`x = x or default`, a
+                # normalisation, a copy) reaches the validated setters as another value than the caller gave
+                pset = set(names)
+                for n in ast.walk(fn):
+                    tg = []
+                    if isinstance(n, ast.Assign):
+                        tg = n.targets
+                    elif isinstance(n, (ast.AugAssign, ast.AnnAssign)):
+                        tg = [n.target]
+                    elif isinstance(n, ast.NamedExpr):
+                        tg = [n.target]
+                    elif isinstance(n, (ast.For, ast.comprehension)):
+                        tg = [n.target]
+                    elif isinstance(n, ast.withitem) and n.optional_vars is not None:
+                        tg = [n.optional_vars]
+                    for t in tg:
+                        for x in ast.walk(t):
+                            if isinstance(x, ast.Name) and x.id in pset:
+                                errors.append({'item': '%s.__init__' % cls, 'file': file, 'line': getattr(n, 'lineno', fn.lineno),
+                                               'msg': 'the constructor re-binds its parameter `%s`' % x.id})
                 for n in ast.walk(fn):
                     if (isinstance(n, ast.Call) and isinstance(n.func, ast.Attribute) and _is_self_attr(n.func)
                             and n.func.attr in ('_build', '_rebuild')):
